@@ -134,8 +134,9 @@ def cmd_check(argv):
 
     wall = time.time() - t0
     ev = _evidence(spec, sw, prop, tier, base_seed, wall, det, known_hits, len(violation_lines), procs)
-    os.makedirs(os.path.join(VERIF, 'evidence'), exist_ok=True)
-    with open(os.path.join(VERIF, 'evidence', f'{prop}.json'), 'w') as f:
+    evdir = os.environ.get('VERIF_EVIDENCE_DIR') or os.path.join(VERIF, 'evidence')  # seeded-change runs redirect it
+    os.makedirs(evdir, exist_ok=True)
+    with open(os.path.join(evdir, f'{prop}.json'), 'w') as f:
         json.dump(ev, f, indent=1, sort_keys=True)
 
     for kl in known_lines:
